@@ -108,7 +108,7 @@ CaseInit ==
                 cs = << Req(b, c, e, z) >>
          \/ \E n \in 1..SeqLen : \E b \in Bodies(n, Symbols) : \E c \in Comps[n] : \E e \in EndsFor(n, AllEnds) :
               \E n2 \in 0..(n - 1) : \E b2 \in Bodies(n2, Symbols) : \E c2 \in Comps[n2] :
-                \E e2 \in EndsFor(n2, {"with", "after"}) :
+                \E e2 \in {"after"} :      \* (the EOF flavours are covered by the single requests and by the first request)
                   cs = << Req(b, c, e, FALSE), Req(b2, c2, e2, FALSE) >>
     ELSE \E n \in 0..ConcLen : \E b \in Bodies(n, {MinSym}) : \E c \in Comps[n] : \E e \in EndsFor(n, {"after", "err"}) :
            \E n2 \in 0..ConcLen : \E b2 \in Bodies(n2, Symbols \ {MinSym}) : \E c2 \in Comps[n2] :
